@@ -627,9 +627,49 @@ type kindEntry struct {
 	terminal bool // may be accepted although invalid (known finding): ends the episode
 }
 
+// kManyParents: a block whose inputs come from exactly n DISTINCT confirmed transactions, each of them fully spent by it
+// (UnspentDB.commit hands the deleted records to its workers in chunks of OPS_AT_ONCE = 32: n = 32·k is the chunk boundary).
+// The n one-output parents are confirmed by a preparatory block first.
+func kManyParents(n int) kindFn {
+	return func(e *episode) []byte {
+		used := map[btc.TxPrevOut]bool{}
+		var prep []*btc.Tx
+		var coins []*wcoin
+		h := e.height()
+		for tries := 0; len(coins) < n && tries < 3*n; tries++ {
+			c := e.pick(notIn(used, nil))
+			if c == nil {
+				return nil
+			}
+			used[c.Out] = true
+			tx := e.buildTx(1, []*wcoin{c}, nil, e.spread(c.Value, 1), 0)
+			oc := e.outCoins(tx, h)
+			if len(oc) != 1 {
+				continue
+			}
+			prep = append(prep, tx)
+			coins = append(coins, oc[0])
+		}
+		if len(coins) != n {
+			return nil
+		}
+		if oc := e.judge("fund", e.k.Build(chainkit.BlockSpec{Txs: prep}), true); oc == nil || !oc.accepted {
+			e.dead = true
+			return nil
+		}
+		var txs []*btc.Tx
+		for _, c := range coins {
+			txs = append(txs, e.buildTx(1, []*wcoin{c}, nil, e.spread(c.Value, 1), 0))
+		}
+		return e.k.Build(chainkit.BlockSpec{Txs: txs})
+	}
+}
+
 func kinds() []kindEntry {
 	return []kindEntry{
 		{"valid-random", kValid, 30, false},
+		{"spend-from-32-txs", kManyParents(32), 2, false},
+		{"spend-from-33-txs", kManyParents(33), 1, false},
 		{"missing-input", kMissingInput, 2, false},
 		{"missing-vout", kMissingVout, 2, false},
 		{"double-spend-in-block", kDoubleInBlock, 3, false},
